@@ -234,61 +234,24 @@ func checkC14(c *Ctx) {
 		}
 		return true
 	}
-	for _, fn := range c.P.LibFns {
-		if clientSide(c, fn) {
+	for _, rl := range c.routeLookups() {
+		fn, okv, hcall := rl.fn, rl.ok, rl.call
+		if clientSide(c, fn) || hcall == nil {
 			continue
 		}
-		ir.EachInstr(fn, func(_ *ssa.BasicBlock, _ int, in ssa.Instruction) {
-			lk, ok := in.(*ssa.Lookup)
-			if !ok || !lk.CommaOk || !derivesFromMethod(lk.Index) || lk.Referrers() == nil {
-				return
+		for _, b := range fn.Blocks {
+			if len(b.Instrs) == 0 {
+				continue
 			}
-			var val, okv ssa.Value
-			for _, r := range *lk.Referrers() {
-				if ex, ok := r.(*ssa.Extract); ok {
-					if ex.Index == 0 {
-						val = ex
-					} else {
-						okv = ex
-					}
-				}
+			ifi, ok := b.Instrs[len(b.Instrs)-1].(*ssa.If)
+			if !ok || ifi.Cond != okv {
+				continue
 			}
-			if val == nil || okv == nil || val.Referrers() == nil {
-				return
-			}
-			if _, isFunc := val.Type().Underlying().(*types.Signature); !isFunc {
-				return
-			}
-			var hcall *ssa.Call
-			passesReq := false
-			for _, r := range *val.Referrers() {
-				if call, ok := r.(*ssa.Call); ok && call.Call.Value == val {
-					hcall = call
-					for _, a := range call.Call.Args {
-						if ir.TypeStr(a.Type()) == "*mcp.JSONRPCRequest" {
-							passesReq = true
-						}
-					}
-				}
-			}
-			if hcall == nil || !passesReq {
-				return
-			}
-			// the found edge
-			for _, b := range fn.Blocks {
-				if len(b.Instrs) == 0 {
-					continue
-				}
-				ifi, ok := b.Instrs[len(b.Instrs)-1].(*ssa.If)
-				if !ok || ifi.Cond != okv {
-					continue
-				}
-				nUncond++
-				c.R.Check(postDominates(hcall.Block(), b.Succs[0]), "R-route-unconditional", "found method runs its handler in "+fname(fn), c.Pos(hcall.Pos()),
-					"every path from the successful lookup to a return passes through the handler call",
-					sprintf("%s finds the method in its table but can return without calling the method's handler (a check sits between the lookup and the call): requests the other transports' routing hands to the handler are answered differently here", fname(fn)))
-			}
-		})
+			nUncond++
+			c.R.Check(postDominates(hcall.Block(), b.Succs[0]), "R-route-unconditional", "found method runs its handler in "+fname(fn), c.Pos(hcall.Pos()),
+				"every path from the successful lookup to a return passes through the handler call",
+				sprintf("%s finds the method in its table but can return without calling the method's handler (a check sits between the lookup and the call): requests the other transports' routing hands to the handler are answered differently here", fname(fn)))
+		}
 	}
 	for _, r := range routes {
 		if r.where == nil || len(c.MapLiteralDispatch()[r.where]) > 0 {
